@@ -54,6 +54,39 @@ theorem simres_pop_push {ctx : Ctx} {st st' : St} {stk loc : List Val} {σ : MSt
   · rw [List.take_append_of_le_length (by simp; omega), List.take_take]
     congr 1; omega
 
+/-- pop `n`, push nothing -/
+theorem simres_pop {ctx : Ctx} {st st' : St} {stk loc : List Val} {σ : MSt} (hw : WF st) (hr : Rel st.stack stk σ)
+    (hl : σ.locals = loc) (hlt : LocTyped ctx loc) (n : Nat) (hn : st.base + n ≤ st.stack.length)
+    (hwf' : WF st') (hlab : st'.labels = st.labels) (hnext : st'.next = st.next) (hstack : st'.stack = st.stack.take (st.stack.length - n))
+    {m : MRes} (hm : m = .normal σ) :
+    SimRes ctx st stk σ st' false (.normal (stk.take (stk.length - n)) loc) m := by
+  have hlen := hr.length
+  refine simres_normal_intro rfl hwf' hlab (Nat.le_of_eq hnext.symm) hlt σ hm ?_ hl (SlotsBelow.refl _ _) ?_
+  · rw [hstack, hlen]; exact hr.take _
+  · rw [List.take_take]; congr 1; omega
+
+/-- the argument slots of a call hold the topmost operands, in declaration order -/
+theorem Rel.args {stack : List VT} {stk : List Val} {σ : MSt} (hr : Rel stack stk σ) (params : List Wasm.VT)
+    (hn : params.length ≤ stack.length) (ht : stack.drop (stack.length - params.length) = params.map vtOfW) :
+    ((params.zipIdx).map fun (t, k) => (⟨vtOfW t, stack.length - params.length + k⟩ : Slot)).map σ.get = topN params.length stk := by
+  have hlen := hr.length
+  apply List.ext_getElem
+  · simp [topN]; omega
+  · intro k h1 h2
+    simp only [List.length_map, List.length_zipIdx] at h1
+    simp only [List.getElem_map, List.getElem_zipIdx, topN, List.getElem_drop, Nat.zero_add]
+    have hk : stack.length - params.length + k < stack.length := by omega
+    have hty : stack[stack.length - params.length + k] = vtOfW params[k] := by
+      have := congrArg (fun l => l[k]?) ht
+      simp only [List.getElem?_drop, List.getElem?_map] at this
+      rw [List.getElem?_eq_getElem hk, List.getElem?_eq_getElem h1] at this
+      simpa using this
+    have hg := hr.get _ hk
+    rw [hty] at hg
+    rw [hg]
+    congr 1
+    omega
+
 theorem num_binary_case {ns : NumSem} {ctx : Ctx} {f : Nat} {st st' : St} {stk loc : List Val} {σ : MSt} {opcode : String} {k : EmitKind}
     {s0 s1 : Slot} (hns : NumOK ns) (hk : lookupAssoc Gen.emitTable opcode = some k)
     (hw : WF st) (hr : Rel st.stack stk σ) (hl : σ.locals = loc) (hlt : LocTyped ctx loc)
@@ -283,7 +316,7 @@ macro "stuck_case" : tactic => `(tactic| (
     | (cases hc; done)
     | (injection hc with hc; simp only [Prod.mk.injEq] at hc; obtain ⟨_, rfl, _⟩ := hc; exact ⟨by simp, trivial⟩)))
 
-theorem instr_step (ns : NumSem) (hns : NumOK ns) (ctx : Ctx) (f : Nat) (hS : SeqStmt ns ctx f) (hI : InstrStmt ns ctx f) :
+theorem instr_step (ns : NumSem) (hns : NumOK ns) (ctx : Ctx) (hco : CallOK ns ctx) (f : Nat) (hS : SeqStmt ns ctx f) (hI : InstrStmt ns ctx f) :
     InstrStmt ns ctx (f + 1) := by
   intro i st st' out dead stk loc σ hc hw hr hl hlt
   have hstat' := instr_static ctx i st st' out dead hc hw
@@ -880,8 +913,187 @@ theorem instr_step (ns : NumSem) (hns : NumOK ns) (ctx : Ctx) (f : Nat) (hS : Se
   | memoryFill => stuck_case
   | memoryInit seg => stuck_case
   | dataDrop seg => stuck_case
-  | call fn => stuck_case
-  | callIndirect ty tbl => stuck_case
+  | call fn =>
+    rw [compileInstr] at hc
+    cases hti : ctx.funcTypeIdx[fn]? with
+    | none => simp [hti, bind, Except.bind] at hc
+    | some ti =>
+    cases hft : ctx.types[ti]? with
+    | none => simp [hti, hft, bind, Except.bind] at hc
+    | some ft =>
+      simp only [hti, hft, bind, Except.bind] at hc
+      split at hc
+      · cases hc
+      · rename_i hge
+        split at hc
+        · cases hc
+        · rename_i hty
+          simp only [Decidable.not_not, ne_eq] at hty
+          have hge' : st.base + ft.params.length ≤ st.stack.length := by simp [St.height] at hge; omega
+          have hlen := hr.length
+          have hargs := hr.args ft.params (by omega) (by simpa [St.height] using hty)
+          rw [erunInstr]
+          have hnlt : ¬ stk.length < ft.params.length := by omega
+          cases hres : ft.results with
+          | nil =>
+            simp only [hres] at hc
+            injection hc with hc; simp only [Prod.mk.injEq] at hc
+            obtain ⟨rfl, rfl, rfl⟩ := hc
+            refine ⟨by simp, ?_⟩
+            have har := hco.arity fn ti ft hti hft (by simp [hres])
+            simp only [hres, List.head?_nil, Option.map_none] at har
+            simp only [har, hnlt, if_false]
+            cases hcs : ns.callS fn (topN ft.params.length stk) with
+            | val r =>
+              cases r with
+              | some v => trivial
+              | none =>
+                have hct := hco.refVal fn _ _ hcs
+                simp only [afterCall]
+                refine simres_pop hw hr hl hlt ft.params.length hge' hwf' rfl rfl rfl ?_
+                show execStmt ns (f + 1) (MStmtC.call none fn _) σ = _
+                simp only [execStmt, St.height]
+                rw [hargs, hct]
+            | trap t =>
+              have hct := hco.refTrap fn _ _ hcs
+              show execStmt ns (f + 1) (MStmtC.call none fn _) σ = _
+              simp only [execStmt, St.height]
+              rw [hargs, hct]
+            | ub => trivial
+            | oof => trivial
+          | cons r rest =>
+            cases rest with
+            | cons r2 rest2 => simp [hres] at hc
+            | nil =>
+              simp only [hres] at hc
+              injection hc with hc; simp only [Prod.mk.injEq] at hc
+              obtain ⟨rfl, rfl, rfl⟩ := hc
+              refine ⟨by simp, ?_⟩
+              have har := hco.arity fn ti ft hti hft (by simp [hres])
+              simp only [hres, List.head?_cons, Option.map_some] at har
+              simp only [har, hnlt, if_false]
+              cases hcs : ns.callS fn (topN ft.params.length stk) with
+              | val rv =>
+                cases rv with
+                | none => trivial
+                | some v =>
+                  have hct := hco.refVal fn _ _ hcs
+                  have hv := hco.typed fn _ _ _ v har hcs
+                  simp only [afterCall]
+                  refine simres_pop_push hw hr hl hlt ft.params.length hge' (vtOfW r) v hv hwf' rfl rfl rfl ?_
+                  show execStmt ns (f + 1) (MStmtC.call (some _) fn _) σ = _
+                  simp only [execStmt, St.height]
+                  rw [hargs, hct]
+              | trap t =>
+                have hct := hco.refTrap fn _ _ hcs
+                show execStmt ns (f + 1) (MStmtC.call (some _) fn _) σ = _
+                simp only [execStmt, St.height]
+                rw [hargs, hct]
+              | ub => trivial
+              | oof => trivial
+  | callIndirect ty tbl =>
+    rw [compileInstr] at hc
+    cases hft : ctx.types[ty]? with
+    | none => simp [hft, bind, Except.bind] at hc
+    | some ft =>
+    cases h0 : st.top 0 with
+    | none => simp [hft, h0, bind, Except.bind] at hc
+    | some idx =>
+      simp only [hft, h0, bind, Except.bind] at hc
+      split at hc
+      · cases hc
+      · rename_i hge
+        split at hc
+        · cases hc
+        · rename_i hty
+          simp only [not_or, Decidable.not_not, ne_eq] at hty
+          have hge' : st.base + ft.params.length + 1 ≤ st.stack.length := by simp [St.height] at hge; omega
+          have hlen := hr.length
+          obtain ⟨a1, a2, a3⟩ := hr.top h0
+          simp only [Nat.sub_zero] at a2 a3
+          have hidx : stk.getD (stk.length - 1) (.i32 0) = σ.get idx := by
+            rw [List.getD_eq_getElem?_getD, a3]; rfl
+          have hw0 : WF (st.drop 1) := hw.of_same rfl (Nat.le_refl _) (by simp; omega) (by have := hw.decl; simp; omega)
+          have hr0 : Rel (st.drop 1).stack stk.dropLast σ := by
+            have := hr.take (st.stack.length - 1)
+            simpa [List.dropLast_eq_take, hlen] using this
+          have htake : stk.dropLast.take st.base = stk.take st.base := by
+            rw [List.dropLast_eq_take, List.take_take]; congr 1; omega
+          have hl0 : (st.drop 1).stack.length = st.stack.length - 1 := by simp
+          have hdrop : (st.drop 1).stack.drop ((st.drop 1).stack.length - ft.params.length) = ft.params.map vtOfW := by
+            rw [hl0]
+            have h := hty.1
+            simp only [St.height] at h
+            rw [← h, St.drop_stack, List.drop_take]
+            congr 1; omega
+          have hargs := hr0.args ft.params (by rw [hl0]; omega) hdrop
+          rw [hl0] at hargs
+          have hge0 : (st.drop 1).base + ft.params.length ≤ (st.drop 1).stack.length := by rw [hl0]; simp; omega
+          have hstk0 : (st.drop 1).stack.take ((st.drop 1).stack.length - ft.params.length) = st.stack.take (st.stack.length - (ft.params.length + 1)) := by
+            rw [hl0, St.drop_stack, List.take_take]; congr 1; omega
+          rw [erunInstr]
+          have hnlt : ¬ stk.length < ft.params.length + 1 := by omega
+          cases hres : ft.results with
+          | nil =>
+            simp only [hres] at hc
+            injection hc with hc; simp only [Prod.mk.injEq] at hc
+            obtain ⟨rfl, rfl, rfl⟩ := hc
+            refine ⟨by simp, ?_⟩
+            have har := hco.indArity ty ft hft (by simp [hres])
+            simp only [hres, List.head?_nil, Option.map_none] at har
+            simp only [har, hnlt, if_false, hidx]
+            cases hcs : ns.indS ty (σ.get idx).bits (topN ft.params.length stk.dropLast) with
+            | val r =>
+              cases r with
+              | some v => trivial
+              | none =>
+                have hct := hco.indRefVal ty _ _ _ hcs
+                simp only [afterCall]
+                refine simres_rebase hw rfl (Nat.le_refl _) (SlotsBelow.refl _ _) htake ?_
+                refine simres_pop hw0 hr0 hl hlt ft.params.length hge0 hwf' rfl rfl hstk0.symm ?_
+                show execStmt ns (f + 1) (MStmtC.callIndirect none ty tbl idx _) σ = _
+                simp only [execStmt, St.height]
+                rw [hargs, hct]
+            | trap t =>
+              have hct := hco.indRefTrap ty _ _ _ hcs
+              show execStmt ns (f + 1) (MStmtC.callIndirect none ty tbl idx _) σ = _
+              simp only [execStmt, St.height]
+              rw [hargs, hct]
+            | ub => trivial
+            | oof => trivial
+          | cons r rest =>
+            cases rest with
+            | cons r2 rest2 => simp [hres] at hc
+            | nil =>
+              simp only [hres] at hc
+              injection hc with hc; simp only [Prod.mk.injEq] at hc
+              obtain ⟨rfl, rfl, rfl⟩ := hc
+              refine ⟨by simp, ?_⟩
+              have har := hco.indArity ty ft hft (by simp [hres])
+              simp only [hres, List.head?_cons, Option.map_some] at har
+              simp only [har, hnlt, if_false, hidx]
+              cases hcs : ns.indS ty (σ.get idx).bits (topN ft.params.length stk.dropLast) with
+              | val rv =>
+                cases rv with
+                | none => trivial
+                | some v =>
+                  have hct := hco.indRefVal ty _ _ _ hcs
+                  have hv := hco.indTyped ty _ _ _ _ v har hcs
+                  simp only [afterCall]
+                  refine simres_rebase hw rfl (Nat.le_refl _) (SlotsBelow.refl _ _) htake ?_
+                  refine simres_pop_push hw0 hr0 hl hlt ft.params.length hge0 (vtOfW r) v hv hwf' rfl rfl ?_ ?_
+                  · show st.stack.take (st.stack.length - (ft.params.length + 1)) ++ [vtOfW r] = _
+                    rw [hstk0]
+                  · show execStmt ns (f + 1) (MStmtC.callIndirect (some _) ty tbl idx _) σ = _
+                    simp only [execStmt, St.height]
+                    rw [hargs, hct, hl0]
+              | trap t =>
+                have hct := hco.indRefTrap ty _ _ _ hcs
+                show execStmt ns (f + 1) (MStmtC.callIndirect (some _) ty tbl idx _) σ = _
+                simp only [execStmt, St.height]
+                rw [hargs, hct]
+              | ub => trivial
+              | oof => trivial
   | brTable ls d =>
     rw [compileInstr] at hc
     cases h0 : st.top 0 with
@@ -976,11 +1188,11 @@ theorem instr_out_len {ctx : Ctx} {st st' : St} {i : EInstr} {out : List MStmtC}
   cases i <;> out_len_case
 
 /-- the simulation statement for sequences and single instructions, for every amount of fuel -/
-theorem sim_all (ns : NumSem) (hns : NumOK ns) (ctx : Ctx) : ∀ f, SeqStmt ns ctx f ∧ InstrStmt ns ctx f
+theorem sim_all (ns : NumSem) (hns : NumOK ns) (ctx : Ctx) (hco : CallOK ns ctx) : ∀ f, SeqStmt ns ctx f ∧ InstrStmt ns ctx f
   | 0 => ⟨fun is st st' out dead stk loc σ _ _ _ _ _ => by rw [erunSeq]; trivial,
           fun i st st' out dead stk loc σ hc _ _ _ _ => ⟨instr_out_len hc, by rw [erunInstr]; trivial⟩⟩
   | f + 1 =>
-    have ih := sim_all ns hns ctx f
-    ⟨seq_step ns ctx f ih.1 ih.2, instr_step ns hns ctx f ih.1 ih.2⟩
+    have ih := sim_all ns hns ctx hco f
+    ⟨seq_step ns ctx f ih.1 ih.2, instr_step ns hns ctx hco f ih.1 ih.2⟩
 
 end W2c2Verif.Sim
